@@ -45,7 +45,7 @@ def gen_cases(tier, seed):
             dev = zoo.scale_device_spec(dev, {"nm": 1e3, "mm": 1e-3}[lu], lu)
         o = dict(solve_time=1.0 if tier == "quick" else 2.0, dt_init=1e-3, dt_max=float(rng.choice([0.02, 0.05])), adaptive=bool(k % 3 != 2),
                  save_every=10, field_units="mT", current_units="uA", output="file", include_screening=True, screening_tolerance=tol,
-                 max_iterations_per_step=2000, screening_step_size=float(rng.choice([0.1, 0.05, 0.2])), screening_step_drag=float(rng.choice([0.5, 0.7, 1.0])))
+                 max_iterations_per_step=2000, screening_step_size=float([0.1, 0.05, 0.2, 0.1][k % 4]), screening_step_drag=float([0.5, 1.0, 0.7, 1.0][k % 4]))  # (k % 4 == 2 is overridden below)
         if not o["adaptive"]:
             o.update(dt_init=5e-3, solve_time=0.4)
         if k % 4 == 2:
